@@ -318,7 +318,12 @@ def run(shard, tier, seed):
               phases=[hypothesis.Phase.generate])
     @given(st.randoms(use_true_random=True), st.sampled_from(chainexec.CFGS), st.integers(*nb))
     def prop(rnd, cfg, k):
-        case = chainexec.gen_case(rnd, cfg, k, 0.0, ["C05"], p_fork=0.65, p_tx=0.4, p_restart=0.05)
+        if shard["i"] == 3 and res.counters.get("validated_histories", 0) % 2 == 0:
+            # very long histories with branches that start more than 32 blocks below the head
+            case = chainexec.gen_case(rnd, cfg, 42 + k % 9, 0.0, ["C05"], p_fork=0.15, p_deep_fork=0.3, deep_min=32, p_tx=0.4, p_restart=0.02)
+            res.count("validated_histories_with_branches_32_below_head")
+        else:
+            case = chainexec.gen_case(rnd, cfg, k, 0.0, ["C05"], p_fork=0.65, p_tx=0.4, p_restart=0.05)
         fails = replay(case)
         res.evaluations += len(case["ops"])
         res.count("validated_histories")
